@@ -856,11 +856,22 @@ class Parser:
             end_col_offset=cmd.end_col_offset if isinstance(cmd, ast.AST) else cmd.end[1],
         )
 
+    @staticmethod
+    def verbatim(tok: TokenInfo) -> TokenInfo:
+        """A NAME token as spelled in the source: name() normalises identifiers, the words of a command are text."""
+        if tok.type == Token.NAME and tok.start[0] == tok.end[0]:
+            raw = tok.line[tok.start[1] : tok.end[1]]
+            if raw != tok.string and unicodedata.normalize("NFKC", raw) == tok.string:
+                return tok._replace(string=raw)
+        return tok
+
     def _proc_args(self, args: list[TokenInfo | ast.expr]) -> Iterator[ast.AST]:
         """split into chunks if they are not contiguous."""
         stash: None | ast.expr = None
 
         for ar in args:
+            if isinstance(ar, TokenInfo):
+                ar = self.verbatim(ar)  # noqa: PLW2901
             if not stash:
                 stash = self._append_node_or_token(stash, ar)
                 continue
